@@ -122,6 +122,64 @@ def repair_may_fire(fam, pycol, entries):
     return False
 
 
+def _cell(v):
+    """Value with its null flavour kept apart (None / nan / NaT / <NA>)."""
+    return '%s:%r' % (type(v).__name__, v)
+
+
+def frame_state(df):
+    """Deep snapshot of everything a caller can see of a frame: values (null
+    flavours and Python types included), dtypes, column labels, their order
+    and the column index name(s) and type, row index values, name(s), dtype
+    and type (RangeIndex start/stop/step), attrs, and for categorical columns
+    the categories, their dtype and identity, and orderedness."""
+    import copy
+    idx = df.index
+    st = OrderedDict()
+    st['columns'] = [repr(c) for c in df.columns]
+    st['column-index-names'] = [repr(n) for n in df.columns.names]
+    st['column-index-type'] = type(df.columns).__name__
+    st['dtypes'] = [str(t) for t in df.dtypes.tolist()]
+    st['index-type'] = type(idx).__name__ + (
+        '(%r,%r,%r)' % (idx.start, idx.stop, idx.step)
+        if hasattr(idx, 'step') else '')
+    st['index-names'] = [repr(n) for n in idx.names]
+    st['index-dtype'] = str(idx.dtype)
+    st['index-values'] = [_cell(x) for x in idx]
+    st['attrs'] = repr(copy.deepcopy(df.attrs))
+    cats = OrderedDict()
+    dts = df.dtypes.tolist()
+    for c, dt in zip(st['columns'], dts):
+        if hasattr(dt, 'categories'):
+            cats[c] = [[repr(x) for x in dt.categories], bool(dt.ordered),
+                       str(dt.categories.dtype), id(dt.categories)]
+    rows = df.to_numpy(dtype=object).tolist() if len(dts) else []
+    st['categoricals'] = cats
+    st['values'] = OrderedDict(
+        (c, [_cell(r[i]) for r in rows]) for i, c in enumerate(st['columns']))
+    st['shape'] = list(df.shape)
+    return st
+
+
+def state_changes(before, after, in_place=False):
+    """Names of the aspects of the caller's frame that differ.  With
+    in_place, columns may be appended: the original ones are compared."""
+    out = []
+    n = len(before['columns'])
+    for k in before:
+        a, b = before[k], after[k]
+        if in_place:
+            if k == 'shape':
+                a, b = a[0], b[0]
+            elif k in ('columns', 'dtypes'):
+                b = b[:n]
+            elif k in ('values', 'categoricals'):
+                b = OrderedDict((c, b[c]) for c in b if c in a)
+        if a != b:
+            out.append(k)
+    return out
+
+
 class Driver(object):
     """Runs the real verify_df and checks one call against the model."""
 
@@ -167,6 +225,7 @@ def run_and_judge(D, R, cols, names, fields, eps, tc, report, sub,
                                         for i, n in enumerate(names)))
     else:
         df = A.build_frame(cols, names)
+    df.attrs['origin'] = {'k': [1, 2]}
     cdict = OrderedDict()
     added = {}
     unjudged_exc = False
@@ -182,9 +241,23 @@ def run_and_judge(D, R, cols, names, fields, eps, tc, report, sub,
     if path:
         with open(path, 'w') as fh:
             json.dump(full, fh)
+    state0 = frame_state(df) if agg else None
     status, v, text, frame = D.call(df, full, eps, tc, report, repair,
                                     path=path, agg=agg)
     R.ev()
+    if agg:
+        # the harness passes repair=False whenever repair could rewrite a
+        # column, so verification must leave the caller's frame as it was
+        changed = state_changes(state0, frame_state(df))
+        R.checked += 1
+        if changed:
+            R.viol('input-changed-by-verify:%s' % '+'.join(changed),
+                   'verification-leaves-input-frame-unchanged',
+                   {'frame': dict((n, c) for c, n in zip(cols, names)),
+                    'constraints': json.loads(json.dumps(cdict, default=str)),
+                    'changed': changed,
+                    'before': dict((k, state0[k]) for k in changed
+                                   if k in state0)}, sub)
     kinds_sig = '+'.join(sorted(set(e['kind'] for es in fields.values()
                                     for e in es)))
     famsig = '+'.join(sorted(set(fams.values())))
